@@ -21,13 +21,30 @@ def main():
         if not os.path.exists(mp):
             continue
         m = json.load(open(mp))
-        res = m.get("check_result_quick", "")
+        first = m.get("check_result_quick", "")
+        res = m.get("retest_quick", first)
         verdict = "caught (VIOLATION with replay)" if "VIOLATION" in res and "no-failing-input-found" not in res else (
             "caught (no-failing-input-found)" if "VIOLATION" in res else "MISSED: " + res[:80])
         if m.get("strengthened"):
             verdict += "; " + m["strengthened"]
         cell = lambda s: str(s).replace("|", "\\|").replace("\n", " ")[:300]
         text += f"| {os.path.basename(d)} | {cell(m.get('summary',''))} | {cell(m.get('needs_to_manifest',''))} | {verdict} |\n"
+    text += "\n## 10a. Harmless changes (the property still holds) and what the checks said\n\n"
+    text += ("Written by sub-agents that saw only the property text and were asked for realistic refactorings / changes of "
+             "behaviour the property does not constrain; confirmed (suite line unchanged), then the property's quick check was run "
+             "against the changed checkout.  Expected: silence.  Stored under `neutral/<id>/`.\n\n")
+    text += "| id | what the change does | observable? | result of the quick check |\n|---|---|---|---|\n"
+    for d in sorted(glob.glob(os.path.join(V, "neutral", "*"))):
+        mp = os.path.join(d, "meta.json")
+        if not os.path.exists(mp):
+            continue
+        m = json.load(open(mp))
+        res = m.get("retest_quick", m.get("check_result_quick", ""))
+        verdict = "silent (OK)" if "VIOLATION" not in res and "OK" in res else "ALARM: " + res[:120]
+        if m.get("note"):
+            verdict += "; " + m["note"]
+        cell = lambda s: str(s).replace("|", "\\|").replace("\n", " ")[:260]
+        text += f"| {os.path.basename(d)} | {cell(m.get('summary',''))} | {cell(m.get('observable',''))} | {cell(verdict)} |\n"
     text += "\n## 11. Trusted base as measured by the last committed runs\n\n"
     text += ("Kernel: Coq 8.16.1 (`coqc`, full `.vo` build through `coq_makefile`/`make`), evaluation by `vm_compute` only "
              "(no `native_compute`); the thorough tier re-checks each property's closure with `coqchk -o`.  No `Axiom`, "
